@@ -458,9 +458,55 @@ func (p *c15) Describe(tier string, seed int64, idx int) string {
 var namePushRe = regexp.MustCompile(`(?m)^\s*Name-Push\t\{(\S*) ([^}]*)\}`)
 var locRe = regexp.MustCompile(`c15-[a-z]+\.yang:\d+:\d+`)
 
+// c15Elsewhere: a set whose modules and submodules carry the names of the sets under test but belong to another
+// namespace; it is compiled before every case (what a compilation has learnt about names ends with it).
+func c15Elsewhere(res *core.CaseResult) {
+	const ns = "urn:verif:c15-elsewhere"
+	sub := func(name, pfx string) *yang.Stmt {
+		return yang.S("submodule", name, yang.S("belongs-to", "c15-use", yang.S("prefix", pfx)),
+			yang.S("container", "el-"+name, yang.S("leaf", "name", yang.S("type", "string"), yang.S("must", "../"+pfx+":name = /"+pfx+":el-top/"+pfx+":name"))))
+	}
+	mods := []*yang.Stmt{
+		yang.S("module", "c15-use", yang.S("namespace", ns), yang.S("prefix", "uu"), yang.S("include", "c15-usub"), yang.S("include", "c15-wsub"),
+			yang.S("container", "el-top", yang.S("leaf", "name", yang.S("type", "string")))),
+		sub("c15-usub", "us"), sub("c15-wsub", "w")}
+	for _, m := range mods {
+		yang.SortSections(m)
+	}
+	ms := &yang.ModSet{Mods: mods}
+	cr := compileTexts(ms.Texts(nil), nil, nil, nil, false)
+	res.Ev("sets_of_another_namespace_compiled_first", 1)
+	in := textsString(ms.Texts(nil))
+	if !cr.Accepted() {
+		res.Fail("C15/rejected-but-valid/set-of-another-namespace", in, cr.Err+cr.Panic+cr.ParseErr)
+		return
+	}
+	for _, name := range []string{"el-c15-usub", "el-c15-wsub"} {
+		pan, msg, _ := core.Guard(func() {
+			for _, m := range cr.MS.Child(name).Child("name").Musts() {
+				l := m.Mach.PrintMachine()
+				for _, other := range []string{nsUse, nsDef, nsX, nsY, nsAug} {
+					if strings.Contains(l, other) {
+						res.Fail("C15/prefix-resolved-in-wrong-scope/set-of-another-namespace", in, fmt.Sprintf("the must of %s names %s; its module is in %s\n%s", name, other, ns, l))
+					}
+				}
+				if !strings.Contains(l, ns) {
+					res.Fail("C15/prefix-resolved-in-wrong-scope/set-of-another-namespace", in, fmt.Sprintf("the must of %s does not name %s\n%s", name, ns, l))
+				}
+			}
+		})
+		if pan {
+			res.Fail("harness-panic", in, "set of another namespace: "+msg)
+		}
+	}
+}
+
 func (p *c15) Run(tier string, seed int64, idx int) core.CaseResult {
 	var res core.CaseResult
 	c := p.gen(tier, seed, idx)
+	if idx%2 == 0 {
+		c15Elsewhere(&res)
+	}
 	if c.unasserted {
 		res.Ev("unasserted_cases", 1)
 		return res
